@@ -6,6 +6,7 @@ package main
 
 import (
 	"encoding/hex"
+	"encoding/json"
 	"fmt"
 	"regexp"
 	"sort"
@@ -105,7 +106,7 @@ func safeWorkName(p string) bool {
 	return !strings.Contains(p, "..")
 }
 
-var reScriptName = regexp.MustCompile(`^[a-z0-9]{1,20}(#[0-9]{1,3})?$`)
+var reScriptName = regexp.MustCompile(`^[a-z0-9]{1,20}(#[0-9]{1,3}){0,3}$`)
 
 // uniqueNames is RunT's disambiguation of base names, as it should be: a name already taken gets the
 // first suffix #1, #2, ... that makes it unused.
@@ -130,6 +131,51 @@ func (s *Script) fileBase() string {
 	return s.Name
 }
 
+// fileName is the base name of the script file with its extension (.txt unless Ext says txtar).
+func (s *Script) fileName() string {
+	if s.Ext == "txtar" {
+		return s.fileBase() + ".txtar"
+	}
+	return s.fileBase() + ".txt"
+}
+
+// renamedByBases: the scripts with the names their file base names give (uniqueNames), for batches
+// whose scripts do not mention each other (no sibling links, no entries planted in a sibling's
+// directory, no ordering of ends): lets a sub-list of a batch with equal base names be run.
+func renamedByBases(ss []Script) []Script {
+	out := append([]Script{}, ss...)
+	explicit := false
+	for i := range out {
+		if out[i].Base != "" {
+			explicit = true
+		}
+		if len(out[i].EndAfter) > 0 {
+			return out
+		}
+		for _, f := range out[i].Files {
+			if strings.HasPrefix(f.Escape, "sibling:") {
+				return out
+			}
+		}
+		j, _ := json.Marshal(out[i].Body)
+		if strings.Contains(string(j), "sibling:") {
+			return out
+		}
+	}
+	if !explicit {
+		return out
+	}
+	bases := make([]string, len(out))
+	for i := range out {
+		bases[i] = out[i].fileBase()
+	}
+	names := uniqueNames(bases)
+	for i := range out {
+		out[i].Name, out[i].Base = names[i], bases[i]
+	}
+	return out
+}
+
 func (b *Batch) validate() error {
 	bases := make([]string, len(b.Scripts))
 	for i := range b.Scripts {
@@ -139,6 +185,9 @@ func (b *Batch) validate() error {
 	for i, s := range b.Scripts {
 		if !reScriptName.MatchString(s.Name) || !reScriptName.MatchString(s.fileBase()) {
 			return fmt.Errorf("script name %q (file %q) refused", s.Name, s.fileBase())
+		}
+		if s.Ext != "" && s.Ext != "txt" && s.Ext != "txtar" {
+			return fmt.Errorf("script %s: extension %q refused", s.Name, s.Ext)
 		}
 		if s.Name != want[i] {
 			return fmt.Errorf("script %d: name %q is not what the base names give (%q)", i, s.Name, want[i])
@@ -285,6 +334,7 @@ type Script struct {
 	// be what uniqueNames computes.
 	Name     string      `json:"name"`
 	Base     string      `json:"base,omitempty"`
+	Ext      string      `json:"ext,omitempty"` // extension of the script file: "" / "txt" (.txt) or "txtar"
 	Files    []File      `json:"files"`
 	Adds     []KV        `json:"adds,omitempty"`
 	Defers   []DeferSpec `json:"defers,omitempty"`
